@@ -345,7 +345,7 @@ def build4(m):
         },
         call_asserts={'mistletoe.block_tokenizer:tokenize_block': [
             # C13 hand-off: the nested tokenization is told the line of its first buffered line
-            ('implies(len(iterable) > 0, start_line == lines.start_line + g_first)', 'C13')]},
+            ('implies(len(arg_iterable) > 0, arg_start_line == lines.start_line + g_first)', 'C13')]},
         loops={
             0: Loop(invariant=['CURSOR_OK(lines)', 'lines._index > old(lines._index)',
                                'is_none(next_line) == (lines._index + 1 >= len(lines.lines))',
